@@ -129,6 +129,10 @@ func apply(v *visor.Visor, s *Script) {
 			_, _ = v.RemoveInvalidUnconfirmed()
 		}
 	}
+	// Every start-up (visor.Init) and the daemon's periodic pass drop pooled transactions that have
+	// become hard-invalid; a restarted node has therefore run this pass at least once more than the
+	// node that never crashed. Compare both at quiescence after one more pass.
+	_, _ = v.RemoveInvalidUnconfirmed()
 }
 
 // Summary is the comparable end state of a node
